@@ -45,6 +45,7 @@ NM(EV, pos, d, ply) ==
 RootMoves(pos, sm) == LET L == Legal(pos) U == {m \in L : Uci(m) \in sm} IN IF sm = {} \/ U = {} THEN L ELSE U
 BestOfPairs(P) == LET v == MaxOf({q[2] : q \in P}) IN <<v, {q[1] : q \in {r \in P : r[2] = v}}>>
 RootPlain(EV, pos, d, sm) ==
+  IF Legal(pos) = {} THEN <<NM(EV, pos, d, 0), {"none"}>> ELSE
   BestOfPairs({<<Uci(m), -NM(EV, Apply(pos, m), d - 1, 1)>> : m \in RootMoves(pos, sm)})
 
 ----------------------------------------------------------------------------
@@ -82,7 +83,7 @@ NMAB(EV, pos, d, ply, alpha, beta) ==
 
 \* value by alpha-beta, and whether a given root move attains it (one extra full-window search of its child)
 RootAB(EV, pos, d, sm) ==
-  LET R == RootMoves(pos, sm) IN NLoop(EV, pos, VictimOrder(pos, R), 1, d, 0, -Inf, Inf)
+  LET R == RootMoves(pos, sm) IN IF R = {} THEN NM(EV, pos, d, 0) ELSE NLoop(EV, pos, VictimOrder(pos, R), 1, d, 0, -Inf, Inf)
 AttainsAB(EV, pos, d, uci, v) ==
   \E m \in Legal(pos) : Uci(m) = uci /\ -NMAB(EV, Apply(pos, m), d - 1, 1, -Inf, Inf) = v
 
